@@ -112,6 +112,12 @@ def gen(rng, tier):
                 ops = ["P" + hx(p) for p in parts] + ["P" + hx(b" ")]
                 m2 = dict(meta); m2["chunks"] = [len(p) for p in parts]; m2["kind"] = meta["kind"] + "-chunked"
                 out.append((line(D, fl, ops), m2))
+    # large configured limits: the limit must be exact for EVERY D, not only small ones
+    for D, ns in ((4097, (4096, 4097)), (4500, (4499,))) if tier == "quick" else ((4096, (4095, 4096)), (4097, (4096, 4097)), (5000, (4999, 5000)), (20000, (19999, 20000))):
+        for n in ns:
+            t = nested(rng, n, b"1")
+            meta = {"kind": "bigD-" + ("below" if first_too_deep(t, D) is None else "above"), "D": D, "text": t, "chunks": None, "flags": 0}
+            out.append((line(D, 0, ["Z" + hx(t)]), meta))
     # hostile: only openers, very long
     for D in (1, 2, 32):
         for opener in (b"[", b'{"a":'):
